@@ -16,7 +16,7 @@ def load(name):
 
 def main():
     rc = 0
-    for name in ("queries2coq", "status2coq", "keys2coq"):
+    for name in ("queries2coq", "status2coq", "keys2coq", "wiring2coq"):
         if not os.path.exists(os.path.join(T, name + ".py")):
             continue
         try:
